@@ -67,12 +67,12 @@ BUILT = {
   "C12": dict(
     technique="exhaustive enumeration of all indentation layouts within a parameter box (choice-point DFS, unwrap nesting to depth 2-3) on clean(); per-line dedent oracle by construction",
     text="All layouts over indentation unit, tag indent, first-inner-line indent, further inner lines at every indent from 0 to F+E, blank lines, nested default-strategy elements and nested unwrap-blocks are cleaned by the real code and every surviving body line is compared with the dedent rule; nested blocks by sequential composition, asserted where inside-out and outside-in composition agree.",
-    note="Trusted: the 15-line dedent rule and the composition bookkeeping. One open known finding (indented tag on line 1 of the file) is listed in known_findings.jsonl.",
+    note="Trusted: the 15-line dedent rule and the composition bookkeeping.",
     design="3/C12"),
   "C13": dict(
     technique="exhaustive enumeration of all block layouts within a parameter box (choice-point DFS) on clean(); line-identity and blank-line-count oracles by construction",
     text="All layouts of 1-3 ready default-strategy blocks with every combination of 0..M blank / whitespace-only lines before and after each, tag and code indentation in spaces and tabs, optional pending parent, multi-byte lines, lines before/after and final newline are cleaned by the real code; the non-blank output lines must be exactly the surviving input lines byte for byte, and a+b-[a>0 and b>0] blank lines must remain around every isolated block.",
-    note="Trusted: generator bookkeeping. One open known finding (indented tag on line 1 of the file) is listed in known_findings.jsonl.",
+    note="Trusted: generator bookkeeping.",
     design="3/C13"),
   "C20": dict(
     technique="exhaustive enumeration of a finite product of CLI option menus and environments; the real binary is executed for every combination and compared byte for byte with the in-process library",
